@@ -195,4 +195,17 @@ PROPS = {
                 "Non-trivial: a module stored in >=2 forms, or an escaped path, or a dot file that must be filtered. Distinct by case.",
         "assumptions": ["module paths contain no underscore (the naming scheme uses '_' as separator)"],
     },
+    "C01": {
+        "pkg": "c01_verdict",
+        "level": "exploration",
+        "engine": "rapid+tsmodel",
+        "bins": {"testscript": ["$REPO", "./cmd/testscript"]},
+        "technique": "model-based property test: a state-aware grammar generator (rapid) builds scripts, archives and Params; an independent reference interpreter written from doc.go predicts verdict, failing line numbers, final file tree and custom-command observations from the script text; the real RunT (recording T, retained work directory) and the real cmd/testscript binary are compared with it",
+        "level_text": "Scripts of 1-25 lines over the whole documented command set with negation, stacked [cond]/[!cond] guards, background commands with kill/wait, custom commands and conditions, ContinueOnError / RequireExplicitExec / RequireUniqueNames, and archives of 0-6 files (nested, $WORK names, duplicates). About 60% contain a failing line at a drawn position, built on purpose from the modelled state (missing path, non-matching pattern, wrong -count, wrong arity, unsupported !, unknown command, chosen exit code). Checked: verdict (pass/fail/skip), the FAIL file:line lines name exactly the model's failing lines, the retained work directory equals the model tree (names, kinds, bytes, symlink targets, chmod'ed modes), probe/getenv/defer records. Batches of 1-3 scripts also go through the real testscript command: exit 0 iff no script's model verdict is fail.",
+        "level_note": "Trusted: the reference interpreter (harness/tsmodel, ~1100 lines, validated against the repository's own passing scripts) and the deterministic helper program. Anything outside the modelled sub-language (pty commands, [net], anchors in patterns, paths outside $WORK, symlink chains, signals to processes that may have exited, failing wait under ContinueOnError) makes the model abstain and the case is skipped and counted. The sandbox runs as root: no outcome depends on a permission denial.",
+        "shards": {"quick": 4, "thorough": 16},
+        "rule": "case = (Params, archive, script text) from the state-aware generator: each line is proposed from ~45 line shapes with arguments taken from the modelled state and kept when the model says it has the intended outcome (fail at the drawn position, else succeed); lines after the end of the script are appended to witness that they have no effect. CLI cases: 1-3 scripts, optional -continue. "
+                "Non-trivial: >=1 executed line and the verdict involves a negation, a condition guard, a failing line at position > 1, stop/skip, or a background wait. Distinct by case.",
+        "assumptions": ["umask 022", "PATH contains the helper directory created by testscript.Main"],
+    },
 }
